@@ -42,6 +42,9 @@ pub enum Line {
 pub struct FileSpec {
     pub path: String,
     pub lines: Vec<Line>,
+    /// CRLF line endings in this file
+    #[serde(default)]
+    pub crlf: bool,
 }
 
 #[derive(Serialize, Deserialize, Clone, Debug, PartialEq)]
@@ -123,7 +126,7 @@ fn file_text(case: &Case, file: usize, base: &Path) -> String {
     for l in &case.files[file].lines {
         for pl in render_line(case, file, l, base) {
             out.push_str(&pl);
-            out.push('\n');
+            out.push_str(if case.files[file].crlf { "\r\n" } else { "\n" });
         }
     }
     out
@@ -348,7 +351,7 @@ fn run_case(case: &Case, env: &WorkerEnv) -> Verdict {
     }
 
     // ---- clause 2: same behaviour as the pasted text
-    gen::install_world(&gen::Program { fns: vec![], arrays: vec![], main: vec![], cnd: vec![], fail_leaf: vec![], forever: false }, None);
+    gen::install_world(&gen::Program { fns: vec![], arrays: vec![], main: vec![], cnd: vec![], fail_leaf: vec![], forever: false, crlf: false }, None);
     sim::with_core(|c| c.note("--- run_script_file"));
     let r1 = runner::run_script_file(&root_arg, new_context(), Some(new_env()));
     let log1 = sim::with_core(|c| c.log.clone());
@@ -485,7 +488,7 @@ fn gen_case(rng: &mut Rng) -> Case {
             lines.push(l);
         }
         let _ = included_here;
-        files.push(FileSpec { path, lines });
+        files.push(FileSpec { path, lines, crlf: rng.chance(1, 10) });
     }
     // make sure the root includes something when there are other files
     if n_files > 1 && !files[0].lines.iter().any(|l| matches!(l, Line::Include(_))) {
